@@ -22,12 +22,6 @@ func runC05() *RunResult {
 	for ti := 0; ti < nt; ti++ {
 		t := &Task{id: ti}
 		cfg := genCfg(true)
-		var p *PathSpec
-		if chance(8) {
-			p = genFailPath()
-		} else {
-			p = genPath(cfg.Funcs, trap, 4, 2)
-		}
 		// a family of documents that agree in shape and differ in the values filters look at
 		base := dg.doc(trap)
 		nd := 2 + rn(3)
@@ -35,11 +29,17 @@ func runC05() *RunResult {
 		for i := 1; i < nd; i++ {
 			t.docs = append(t.docs, newDoc(dg.variant(base)))
 		}
+		var p *PathSpec
+		if chance(8) {
+			p = genFailPath()
+		} else {
+			p = genPathFor(t.docs[rn(nd)].Val, cfg.Funcs, trap, 4, 2)
+		}
 		// unrelated path/doc for pool recycling
 		ucfg := genCfg(true)
-		up := genPath(ucfg.Funcs, trap, 3, 1)
 		udoc := len(t.docs)
 		t.docs = append(t.docs, newDoc(dg.doc(trap)))
+		up := genPathFor(t.docs[udoc].Val, ucfg.Funcs, trap, 3, 1)
 
 		t.ops = append(t.ops, &Op{Kind: opParse, Path: p, Cfg: cfg, Slot: 0})
 		ncalls := 2 + rn(7)
